@@ -3,6 +3,7 @@ package rules
 import (
 	"go/token"
 	"go/types"
+	"sort"
 	"strings"
 
 	"golang.org/x/tools/go/ssa"
@@ -14,7 +15,7 @@ import (
 func init() {
 	register(&Prop{
 		ID:          "C07",
-		Explanation: "Decides the wiring between stripping and injecting identity headers: NewRequestHeaderInjector gives the same configured header list to the strip builder and the injector builder and composes alice.New(strip, inject) in that order, dropping the strip stage only when the builder returned nil; the strip builder collects header.Name exactly for entries without PreserveRequestValue and returns nil only for an empty collection; the strip handler calls the canonicalising http.Header.Del on the request's header for every collected name unconditionally before calling next; the upstream handler and the auth-only 202 writer are used only as the argument of p.headersChain.Then (whose result is what serves the request), headersChain has one writer, the constructor, fed from buildHeadersChain = alice.New(request injector, response injector); every value written by the injectors derives only from session.GetClaim(...), configured secret bytes, configured prefixes and constants, never from a header read; GetClaim returns no values for a nil session; the inject handlers inject scope.Session into the request's (response's) own header map before next; the legacy conversion sets PreserveRequestValue = !SkipAuthStripHeaders for every element after the last append; claim injectors add a header only on paths where the claim value itself was tested non-empty; getRequestHeaders adds each legacy header group exactly on the paths whose tested flags ask for it (PassBasicAuth||PassUserHeaders -> user headers, PassAccessToken, PassAuthorization, PassBasicAuth&&password -> basic-auth header). Added during the build: a claim source injects only non-empty claim values and the legacy flags map to the documented header groups (R6).",
+		Explanation: "Decides the wiring between stripping and injecting identity headers: NewRequestHeaderInjector gives the same configured header list to the strip builder and the injector builder and composes alice.New(strip, inject) in that order, dropping the strip stage only when the builder returned nil; the strip builder collects header.Name exactly for entries without PreserveRequestValue and returns nil only for an empty collection; the strip handler calls the canonicalising http.Header.Del on the request's header for every collected name unconditionally before calling next; the upstream handler and the auth-only 202 writer are used only as the argument of p.headersChain.Then (whose result is what serves the request), headersChain has one writer, the constructor, fed from buildHeadersChain = alice.New(request injector, response injector); every value written by the injectors derives only from session.GetClaim(...), configured secret bytes, configured prefixes and constants, never from a header read; GetClaim returns no values for a nil session; the inject handlers inject scope.Session into the request's (response's) own header map before next; the legacy conversion sets PreserveRequestValue = !SkipAuthStripHeaders for every element after the last append; claim injectors add a header only on paths where the claim value itself was tested non-empty; getRequestHeaders adds each legacy header group exactly on the paths whose tested flags ask for it (PassBasicAuth||PassUserHeaders -> user headers, PassAccessToken, PassAuthorization, PassBasicAuth&&password -> basic-auth header). Added during the build: a claim source injects only non-empty claim values and the legacy flags map to the documented header groups (R6). GetClaim answers each claim name from the session field of that name only (R7); with request signing configured the upstream proxy overwrites GAP-Auth from its own response header before every hand-off (R8).",
 		NotDecided:  "per-option value tables of the legacy flags (which claims each flag maps to); header-name normalisation by upstream servers (underscore/dash); values produced by GetClaim for each claim name.",
 		Run:         runC07,
 	})
@@ -27,6 +28,8 @@ func runC07(c *Ctx) {
 	r.Rule("R3-only-through-chain", "upstream handler and 202 writer only as headersChain.Then(...) arguments; headersChain has one writer from buildHeadersChain", 4)
 	r.Rule("R4-value-provenance", "injected values derive only from GetClaim, configured secrets/prefixes and constants; nil session injects nothing; handlers inject scope.Session", 7)
 	r.Rule("R6-empty-claims-and-legacy-table", "no header for an empty claim value; legacy flags select their header groups as documented", 6)
+	r.Rule("R7-claim-field-table", "GetClaim answers each claim name from the session field of that name only; nothing for unknown claims or a nil session", 9)
+	r.Rule("R8-gap-auth-replaced", "with signing configured, GAP-Auth is overwritten from the proxy's own response header before every hand-off to an upstream handler", 2)
 	r.Rule("R5-legacy-conversion", "PreserveRequestValue = !SkipAuthStripHeaders applied to every element after the last append", 1)
 
 	// ---- R1 ---------------------------------------------------------------------------------
@@ -398,6 +401,8 @@ func runC07(c *Ctx) {
 
 	runC07R4R5(c)
 	runC07R6(c)
+	runC07R7(c, "R7-claim-field-table")
+	runC07R8(c, "R8-gap-auth-replaced")
 }
 
 // fromRequestParam: v is *(&req.Header) for the given request parameter.
@@ -849,4 +854,170 @@ func runC07R6(c *Ctx) {
 		check("getAuthorizationHeader", T("PassAuthorization"), F("PassAuthorization"), "PassAuthorization")
 		check("getBasicAuthHeader", T("PassBasicAuth") && pwKnown && !pwEmpty, F("PassBasicAuth") || (pwKnown && pwEmpty), "PassBasicAuth && BasicAuthPassword != \"\"")
 	})
+}
+
+// runC07R7: GetClaim hands out, for each claim name, only the session field of that name — never a
+// substitute taken from another (user-editable) field, and nothing for an unknown claim or a nil session.
+func runC07R7(c *Ctx, rule string) {
+	gc := c.Fn(rule, "(*pkg/apis/sessions.SessionState).GetClaim")
+	if gc == nil {
+		return
+	}
+	table := map[string]string{
+		"access_token": "AccessToken", "id_token": "IDToken", "refresh_token": "RefreshToken",
+		"created_at": "CreatedAt", "expires_on": "ExpiresOn",
+		"email": "Email", "user": "User", "groups": "Groups", "preferred_username": "PreferredUsername",
+	}
+	recv, claimP := gc.Params[0], gc.Params[1]
+	// fieldsOf: the receiver fields a value derives from (through loads, String(), conversions, copies)
+	var fieldsOf func(p *walk.Path, dv walk.DV, out map[string]bool, depth int)
+	fieldsOf = func(p *walk.Path, dv walk.DV, out map[string]bool, depth int) {
+		if depth > 8 {
+			out["?"] = true
+			return
+		}
+		r := p.Resolve(dv)
+		switch v := r.V.(type) {
+		case *ssa.Const:
+		case *ssa.UnOp:
+			if fa, ok := v.X.(*ssa.FieldAddr); ok && p.Resolve(p.Op(fa.X, r)).V == ssa.Value(recv) {
+				out[walk.FieldOf(fa.X.Type(), fa.Field).Name()] = true
+				return
+			}
+			fieldsOf(p, p.Op(v.X, r), out, depth+1)
+		case *ssa.Call:
+			if len(v.Call.Args) == 0 {
+				out["?"] = true
+				return
+			}
+			for _, a := range v.Call.Args {
+				fieldsOf(p, p.Op(a, r), out, depth+1)
+			}
+		case *ssa.Convert:
+			fieldsOf(p, p.Op(v.X, r), out, depth+1)
+		case *ssa.ChangeType:
+			fieldsOf(p, p.Op(v.X, r), out, depth+1)
+		case *ssa.Phi, *ssa.Parameter:
+			out["?"] = true
+		default:
+			out["?"] = true
+		}
+	}
+	c.Walk(rule, gc, func(p *walk.Path) {
+		rv, ok := p.ReturnDV(0)
+		if !ok {
+			return
+		}
+		at := p.End()
+		claim := ""
+		for k := range table {
+			if eqConstAtom(p, at, true, k, func(x walk.DV) bool { return p.Resolve(x).V == ssa.Value(claimP) }) {
+				claim = k
+			}
+		}
+		// what flows into the returned slice: stores into its backing array, copy() sources
+		got := map[string]bool{}
+		r := p.Resolve(rv)
+		var backing ssa.Value
+		if sl, ok := r.V.(*ssa.Slice); ok {
+			backing = sl.X
+		}
+		for _, s := range p.Steps {
+			switch v := s.In.(type) {
+			case *ssa.Store:
+				if ia, ok := v.Addr.(*ssa.IndexAddr); ok && backing != nil && ia.X == backing {
+					fieldsOf(p, p.StepOp(v.Val, s), got, 0)
+				}
+			case *ssa.Call:
+				if bi, ok := v.Call.Value.(*ssa.Builtin); ok && bi.Name() == "copy" && p.Same(p.StepOp(v.Call.Args[0], s), rv) {
+					fieldsOf(p, p.StepOp(v.Call.Args[1], s), got, 0)
+				}
+			}
+		}
+		if _, isSlice := r.V.(*ssa.Slice); !isSlice {
+			if _, isMake := r.V.(*ssa.MakeSlice); !isMake {
+				fieldsOf(p, rv, got, 0) // the field itself is returned
+			}
+		}
+		var names []string
+		for k := range got {
+			names = append(names, k)
+		}
+		sort.Strings(names)
+		key := "claim|" + claim
+		switch {
+		case claim == "":
+			if len(got) == 0 {
+				c.ok(rule, "claim|<other>", p.Exit, "unknown claim or nil session: empty result")
+			} else if got["?"] {
+				c.bad(rule, "claim|<other>", p.Exit, "GetClaim returns a value of unknown origin for a claim name the rule table does not know", p, at)
+			} else {
+				c.ok(rule, "claim|<new>", p.Exit, "claim outside the table: value taken from session field(s) "+strings.Join(names, ","))
+			}
+		case len(got) == 0:
+			c.ok(rule, key+"|empty", p.Exit, "no value (field unset)")
+		case len(got) == 1 && got[table[claim]]:
+			c.ok(rule, key, p.Exit, "value of session field "+table[claim])
+		default:
+			c.bad(rule, key, p.Exit, sprintf("claim %q is answered from session field(s) %s instead of only %s: a header configured for this claim carries another, possibly user-editable, value", claim, strings.Join(names, ","), table[claim]), p, at)
+		}
+	})
+}
+
+// runC07R8: the upstream proxy replaces a client-supplied GAP-Auth header (and signs) before it hands
+// the request to ANY upstream handler whenever request signing is configured.
+func runC07R8(c *Ctx, rule string) {
+	fn := c.Fn(rule, "(*pkg/upstream.httpUpstreamProxy).ServeHTTP")
+	authF := c.Field(rule, "pkg/upstream.httpUpstreamProxy.auth")
+	hdrSet := c.StdFunc(rule, "net/http.Header.Set")
+	hdrGet := c.StdFunc(rule, "net/http.Header.Get")
+	reqHeaderF := c.P.Field("net/http.Request.Header")
+	if fn == nil || authF == nil || hdrSet == nil || hdrGet == nil || reqHeaderF == nil {
+		return
+	}
+	n := 0
+	c.Walk(rule, fn, func(p *walk.Path) {
+		for _, cl := range p.Calls() {
+			if !cl.C.IsInvoke() || cl.C.Method.Name() != "ServeHTTP" {
+				continue
+			}
+			n++
+			key := "gap-auth-replaced|" + fnKey(fn)
+			// signing not configured on this path?
+			authNil := false
+			for _, a := range p.Atoms(cl.Idx) {
+				if a.IsNil && a.Val && walk.IsFieldLoad(p.Resolve(a.DV).V, authF) {
+					authNil = true
+				}
+			}
+			if authNil {
+				c.ok(rule, key+"|no-signing", cl.In, "request signing is not configured on this path")
+				continue
+			}
+			replaced := false
+			for _, sc := range p.Find(walk.Static(hdrSet), cl.Idx) {
+				k, isK := ConstString(p.Resolve(p.Arg(sc, 1)).V)
+				if !isK || !strings.EqualFold(k, "GAP-Auth") {
+					continue
+				}
+				base, isReqHdr := walk.FieldLoadBase(p.Resolve(p.Arg(sc, 0)).V, reqHeaderF)
+				if !isReqHdr || base != ssa.Value(fn.Params[2]) {
+					continue
+				}
+				if gcl, ok := extractOfCall(p, p.Arg(sc, 2), 0); ok && gcl.C.StaticCallee() == hdrGet {
+					if hc, ok := extractOfCall(p, p.Arg(gcl, 0), 0); ok && hc.C.IsInvoke() && hc.C.Method.Name() == "Header" && p.Resolve(p.Recv(hc)).V == ssa.Value(fn.Params[1]) {
+						replaced = true
+					}
+				}
+			}
+			if replaced {
+				c.ok(rule, key, cl.In, "req.Header.Set(\"GAP-Auth\", rw.Header().Get(\"GAP-Auth\")) precedes the hand-off")
+			} else {
+				c.bad(rule, key, cl.In, "with request signing configured the request reaches an upstream handler without its GAP-Auth header having been replaced by the proxy's own value: a client-supplied identity header passes through", p, cl.Idx)
+			}
+		}
+	})
+	if n == 0 {
+		c.R.Unknown(rule, "gap-auth-replaced|none", c.P.Pos(fn.Pos()), "the upstream proxy hands the request to no handler")
+	}
 }
